@@ -335,6 +335,7 @@ def flatten_terms(x):
 REF_PRED = {
     "p_eq": lambda x, k: x.p == k,
     "p_eq_nested": lambda x, k: x.p == k,
+    "p_eq_inner": lambda x, k: x.p == k,
     "p_lt": lambda x, y: x.p < y.p,
     "val_eq": lambda v, k: v == k,
     "PEq": lambda x, k: x.p == k,
